@@ -21,10 +21,13 @@ def _events(args):
     kind = rng.choice(["subset", "subset", "prop", "swap", "refuse", "noresp"])
     base = {"id": idx, "frame": {"n": w.n, "cols": w.cols}, "policy": "drop", "views": True, "common": dict(gen.EMPTY), "group": dict(gen.EMPTY)}
     if kind == "subset":
-        v = rng.choice(["f", "g", "h", "o"])
+        v = rng.choice(["f", "g", "h", "o", "kcat"])
         code = rng.randint(1, len(w.names[v]))
         lvl = w.names[v][code - 1]
         absent = rng.random()
+        if v == "kcat":
+            # integer classes: the quoted text '3' is not the integer 3 - no row equals it
+            code, absent = len(w.names[v]) + 1, 1.0
         if absent < 0.12:
             # a level that never occurs: the column is all zero
             code, lvl = len(w.names[v]) + 1, "zzz"
@@ -111,7 +114,9 @@ def _events(args):
             ev["la"], ev["lb"] = rows.label_ids(la, lb)
         out.append((ev, t1 + "  vs  " + t2))
     elif kind == "refuse":
-        text = rng.choice(["y + x ~ ", "y:x ~ ", "y*x ~ ", "(y|g) ~ ", "y - x + z ~ ", "f + g ~ "]) + rhs_text
+        text = rng.choice(["y + x ~ ", "y:x ~ ", "y*x ~ ", "(y|g) ~ ", "y - x + z ~ ", "f + g ~ ",
+                           # two subsets of one variable, or a subset next to the plain variable, are two terms as well
+                           "f['a'] + f['b'] ~ ", "f['a']:f['b'] ~ ", "f['a'] + f ~ ", "f['b']*f['a'] ~ "]) + rhs_text
         st, dm = design.build(text, w.df, extra_namespace=dict(w.namespace))
         out.append(({"id": idx, "kind": "refuse", "status": "ok" if st == "ok" else type(dm).__name__, "tag": "multi_term_response"}, text))
     else:
